@@ -34,7 +34,7 @@ MANIFEST = {
             'from _succeed_workflow / _fail_workflow / _cancel_workflow / set_state / the completion-check transaction, for '
             'ALL interference schedules (an arbitrary committed transaction in every gap between two statements): '
             '*_atomic, fail/cancel_keeps_finished, succeed_keeps_finished (full since repo fix ce9b9520), *_state_output_together, '
-            'cac_succeed_keeps_finished (full since repo fix ce9b9520), cac_one_party (full since repo patch 25); tie: '
+            'cac_succeed_keeps_finished (full since repo fix ce9b9520), cac_one_party (full since repo fix 3b5c318a); tie: '
             'race-wf stream (real stop / pause / completion check of a second session committed at every pre-lock SQL '
             'statement of the real completion / stop transaction, compared with Mistral.Race.runWith; monitor on the rows).',
     'note': 'One event = one committed transaction (in-process atomicity) in Mistral.Engine / Mistral.Tree; multi-process '
